@@ -226,6 +226,35 @@ Definition refl_parts (ax : option nat) (yt yp : tensor F) : tensor F * tensor F
 (* correlation = cov / sqrt (var * var) : numerator and the product under the square root *)
 Definition corr_parts (ax : option nat) (yt yp : tensor F) : tensor F * tensor F :=
   (covariance ax yt yp, tzip mul (variance ax yt) (variance ax yp)).
+(* ---------- sqrt-based metrics.  sq = the square root: Rdefinitions.sqrt in the theorems (Rops); in the executed instance
+   (Qops) an approximation good to 2^-100 (Corr/C20.v: qsqrt).  numpy's sqrt itself is never re-implemented bit for bit: the
+   comparison with the implementation is toleranced ---------- *)
+Definition RMSE (sq : F -> F) (ax : option nat) (yt yp : tensor F) : tensor F := tmap sq (MSE ax yt yp).
+Definition standard_deviation (sq : F -> F) (ax : option nat) (y : tensor F) : tensor F := tmap sq (variance ax y).
+(* num / sqrt(den), entry by entry *)
+Definition ratio_parts (sq : F -> F) (parts : tensor F * tensor F) : tensor F := tzip div (fst parts) (tmap sq (snd parts)).
+Definition correlation (sq : F -> F) (ax : option nat) (yt yp : tensor F) : tensor F := ratio_parts sq (corr_parts ax yt yp).
+Definition reflective_correlation (sq : F -> F) (ax : option nat) (yt yp : tensor F) : tensor F := ratio_parts sq (refl_parts ax yt yp).
+(* shape of a reduction over ax *)
+Definition rshape (ax : option nat) (s : list nat) : list nat := match ax with None => [] | Some a => remove_nth a s end.
+
+(* ---------- a certificate for the optimality of a matching (linear-programming duality) ----------
+   vs: column potentials (any numbers: DATA supplied by the harness).  Row potentials are then chosen as
+   u_i = max_j (C_ij - v_j), so that C_ij <= u_i + v_j holds by construction, and  sum u + sum v  bounds the total weight of
+   EVERY perfect matching.  dual_gap = that bound minus the weight of the matching p: it is 0 exactly when p is optimal and
+   vs is an optimal dual solution. *)
+Definition dual_u (r : nat) (C : mat) (vs : list F) (i : nat) : F := maxn r (fun j => sub (mget C i j) (nth j vs zero)).
+Definition dual_bound (r : nat) (C : mat) (vs : list F) : F := add (sumn r (dual_u r C vs)) (sumn r (fun j => nth j vs zero)).
+Definition match_weight (r : nat) (C : mat) (p : list nat) : F := sumn r (fun i => mget C i (nth i p 0)).
+Definition dual_gap (r : nat) (C : mat) (vs : list F) (p : list nat) : F := sub (dual_bound r C vs) (match_weight r C p).
+
+(* the per-pair correlation index before the threshold `if score < tol: score = 0` *)
+Definition corr_index_raw (X1 X2 : mat) (n1 n2 : list F) : F :=
+  let c := mabs (dotT (normalise X1 n1) (normalise X2 n2)) in
+  let r1 := nrows c in let r2 := ncols c in
+  let s1 := sumn r1 (fun i => fabs Op (sub (maxn r2 (fun j => mget c i j)) one)) in
+  let s2 := sumn r2 (fun j => fabs Op (sub (maxn r1 (fun i => mget c i j)) one)) in
+  mul (div one (nat2F Op (r2 + r1))) (add s1 s2).
 End M.
 
 Arguments mat F : clear implicits. Arguments cmode F : clear implicits.
